@@ -100,6 +100,9 @@ def run(ctx):
     ctx.minimum('C02-case', 4)
 
     # ---- C02-fields
+    from ..table import enum_decl
+    _, _, enames, evals = enum_decl(ctx.P, 'cctz::time_zone::civil_lookup::civil_kind')
+    ev_ = {'int:%d' % v: nm_ for nm_, v in zip(enames, evals)}
     want = {
         'MakeSkipped': dict(kind='SKIPPED', pre={'U': 1, 'cs': 1, 'P': -1, '': -1}, trans={'U': 1}, post={'U': 1, 'cs': 1, 'C': -1}),
         'MakeRepeated': dict(kind='REPEATED', pre={'U': 1, 'cs': 1, 'P': -1, '': -1}, trans={'U': 1}, post={'U': 1, 'cs': 1, 'C': -1}),
@@ -110,6 +113,7 @@ def run(ctx):
             raise AnalysisBroken('C02-fields: %s not found' % nm)
         uu, ff = G.defs[ks[0]]
         got = _fields(ctx, uu, ff)
+        got['kind'] = ev_.get(got.get('kind'), got.get('kind'))
         pp = params_of(ff)
         tk, ck = '%s#%s' % (pp[0]['name'], pp[0]['id']), '%s#%s' % (pp[1]['name'], pp[1]['id'])
         ren = {tk + '.unix_time': 'U', tk + '.civil_sec': 'C', tk + '.prev_civil_sec': 'P', ck: 'cs'}
@@ -131,6 +135,7 @@ def run(ctx):
         raise AnalysisBroken('C02-fields: MakeUnique(time_point) not found')
     uu, ff = G.defs[ks[0]]
     got = _fields(ctx, uu, ff)
+    got['kind'] = ev_.get(got.get('kind'), got.get('kind'))
     pk = '%s#%s' % (params_of(ff)[0]['name'], params_of(ff)[0]['id'])
     ctx.check(got.get('kind') == 'UNIQUE' and all(got.get(x) == {pk: 1} for x in ('pre', 'trans', 'post')), 'C02-fields',
               'MakeUnique: kind == UNIQUE, pre == trans == post == the instant', ff,
@@ -140,9 +145,12 @@ def run(ctx):
 
     # ---- C02-order (the rule of C14-order, for the civil-time key)
     saved = len(ctx.obligations)
+    mins = dict(ctx.minimums)
     c14._check_order(ctx)
     new = ctx.obligations[saved:]
     del ctx.obligations[saved:]
+    ctx.minimums.clear()
+    ctx.minimums.update(mins)
     for o in new:
         if 'civil seconds' in o['instance']:
             o['rule'] = 'C02-order'
@@ -175,14 +183,21 @@ def _fields(ctx, u, f):
     out = {}
     g = sv.cfg
 
-    def record(lhs, rhs_sv, node):
+    def record(lhs, rhs, node):
         l = peel(lhs)
         if l is None or l.get('kind') != 'MemberExpr':
             return
         name = l.get('name')
         if name not in ('kind', 'pre', 'trans', 'post'):
             return
-        t = single(rhs_sv or ())
+        r = peel(rhs)
+        while r is not None and r.get('kind') in ('CXXConstructExpr', 'MaterializeTemporaryExpr', 'CXXBindTemporaryExpr', 'ExprWithCleanups') \
+                and len([a for a in kids(r) if a.get('kind') != 'CXXDefaultArgExpr']) == 1:
+            r = peel([a for a in kids(r) if a.get('kind') != 'CXXDefaultArgExpr'][0])
+        if r is not None and r.get('kind') == 'CallExpr' and callee(r) and callee(r)[0] == 'fn' and \
+                callee(r)[1].get('name') == 'FromUnixSeconds' and call_args(r):
+            r = call_args(r)[0]                 # the second count the field is built from
+        t = single(sv.value(node, r) or ())
         if name == 'kind':
             out['kind'] = (render(t).split('::')[-1] if t is not None else None)
             return
@@ -191,23 +206,22 @@ def _fields(ctx, u, f):
         elif t[0] == 'int':
             out[name] = dict(t[2])
         elif t[0] == 'key':
-            m = re.match(r'^cctz::FromUnixSeconds\((.*)\)$', t[2])
-            inner = m.group(1) if m else t[2]
-            mm = re.match(r'^int:(.*)$', inner)
-            out[name] = _parse_lin(mm.group(1)) if mm else {inner: 1}
+            out[name] = {t[2]: 1}
+        else:
+            out[name] = None
     for n in g.rpo():
         if n.kind != 'stmt' or n.ast is None:
             continue
         for x in _post(n.ast):
             if x.get('kind') == 'BinaryOperator' and x.get('opcode') == '=':
-                record(kids(x)[0], sv.value(n, kids(x)[1]), n)
+                record(kids(x)[0], kids(x)[1], n)
             elif x.get('kind') == 'CXXOperatorCallExpr' and callee(x) and callee(x)[0] == 'fn' and callee(x)[1].get('name') == 'operator=':
                 args = call_args(x)
                 rhs = args[1]
                 # chained  a = b = c = v : the value is that of the innermost right-hand side
                 while peel(rhs).get('kind') == 'CXXOperatorCallExpr' and callee(peel(rhs)) and callee(peel(rhs))[1].get('name') == 'operator=':
                     rhs = call_args(peel(rhs))[1]
-                record(args[0], sv.value(n, rhs), n)
+                record(args[0], rhs, n)
     return out
 
 
@@ -216,18 +230,3 @@ def _post(e):
         for y in _post(c):
             yield y
     yield e
-
-
-def _parse_lin(txt):
-    """inverse of symval.lin_str"""
-    lin = {}
-    for m in re.finditer(r'([+-]?)(?:(\d+)\*)?([^+-][^+]*?)(?=[+-](?:\d+\*)?[A-Za-z_(]|[+-]\d+$|$)', txt):
-        sg, coef, sym = m.group(1), m.group(2), m.group(3)
-        c = int(coef) if coef else 1
-        if sg == '-':
-            c = -c
-        if re.match(r'^\d+$', sym):
-            lin[''] = lin.get('', 0) + c * int(sym)
-        else:
-            lin[sym] = lin.get(sym, 0) + c
-    return lin
